@@ -826,9 +826,115 @@ def run(ctx):
             ctx.count("geo:method:completed")
             ctx.count(f"geo:method:history-position={min(step, 3)}")
             hist.append(f"randomly_rewire_geomodel_{mode}(iterations={iters})")
+    # ---- 2b. round 4, method level: (f32) the caller's distance matrix and `inaccuracy` are arbitrary
+    #      doubles; the method converts them to binary32 (`to_cy(.., FIELD)`, C `float eps`) and the model
+    #      gets exactly these binary32 values as integers (`geoMethodFl rnd32`); (b64) the RNG returns
+    #      53-bit doubles k / 2^53 as numpy does and the model evaluates `floor(fl64(u * E))` itself
+    def uniform_pairs53(E, budget):
+        ps = PairStream(rng, E, E, budget)
+        state = {"n": 0, "idx": [], "k": [], "ps": ps}
+
+        def sup(kind, arg):
+            assert kind == "random" and arg is None, (kind, arg)
+            idx = ps.first() if state["n"] % 2 == 0 else ps.second()
+            state["n"] += 1
+            lo = -((-idx * 2 ** 53) // E)
+            hi = -((-(idx + 1) * 2 ** 53) // E) - 1
+            k = rng.choice([lo, hi, (lo + hi) // 2, rng.randrange(lo, hi + 1)])
+            u = k / 2.0 ** 53
+            real = int(np.floor(u * E))        # may be idx + 1 when the product rounds up to an integer
+            if real != idx:
+                ctx.count("geo:method:b64:rounded product reached the next index")
+            state["idx"].append(real)
+            state["k"].append(k)
+            return u
+        return sup, state
+
+    for _ in range(200 if quick else 2000):
+        n = rng.choice([4, 5, 5, 6, 7, 9])
+        gk, A = structured_graph(rng, n)
+        if A.sum() == 0:
+            continue
+        mode = rng.choice(["I", "II", "III"])
+        flavour = rng.choice(["f32", "f32", "b64"])
+        net = make_spatial(n, A)
+        for step in range(rng.choice([1, 2])):
+            A0 = net.adjacency.copy()
+            e0 = np.array(net.graph.get_edgelist()).reshape(-1, 2)
+            E0 = int(net.n_links)
+            iters = rng.choice([1, 1, 2, 5])
+            budget = min(1500, 5 + iters * (len(e0) ** 2 + 5))
+            if flavour == "f32":
+                D64 = np.zeros((n, n))
+                kind = rng.choice(["uniform", "mixed-exponents", "near-2^24"])
+                for i in range(n):
+                    for j in range(i):
+                        # doubles that are NOT binary32 numbers: the method's conversion rounds them
+                        D64[i, j] = D64[j, i] = float(f32_value(kind)) * (1 + rng.randrange(1, 2 ** 20) * 2.0 ** -45)
+                inacc = float(rng.choice([0.1, 0.3, rng.uniform(0, 5), 7.3, 1e4, 5e7, 1e30, 1e30,
+                                          abs(float(np.float32(D64[0, 1])) - float(np.float32(D64[1, 2 % n])))]) or 0.5)
+                D32 = D64.astype(np.float32)
+                eps32 = np.float32(inacc)
+                if not eps32 > 0:
+                    continue
+                den, ints = units(list(D32.flatten()) + [eps32])
+                Dint, epsint = np.array(ints[:-1], dtype=object).reshape(n, n), ints[-1]
+                sup, state = uniform_pairs(len(e0), budget)
+                call_D, call_eps = D64, inacc
+            else:
+                _dk, Dq = dist_matrix(rng, n)
+                Dq = np.maximum(Dq, Dq.T)
+                epsq = rng.choice([2, 3, 5, 400, 400, 2 ** 40])
+                Dint, epsint = Dq, epsq
+                sup, state = uniform_pairs53(len(e0), budget)
+                call_D, call_eps = Dq / 4.0, epsq / 4.0
+            completed, err = True, None
+            Dm_before = np.array(call_D, copy=True)
+            with Patched(K, sup):
+                try:
+                    getattr(net, "randomly_rewire_geomodel_" + mode)(
+                        distance_matrix=call_D, iterations=iters, inaccuracy=call_eps)
+                except Stop:
+                    completed = False
+                except Exception as e:  # noqa
+                    err = e
+            rp = {"call": f"{type(net).__name__}.randomly_rewire_geomodel_{mode}", "iterations": iters,
+                  "flavour": flavour, "inaccuracy": float(call_eps), "A": A0.tolist(),
+                  "distance_matrix": np.asarray(call_D, dtype=np.float64).tolist()}
+            if err is not None:
+                ctx.fail({"kind": "geo", "level": "method", "mode": mode, "invariant": "raises",
+                          "error": type(err).__name__},
+                         f"randomly_rewire_geomodel_{mode} raised {err!r}", rp)
+                break
+            if not completed:
+                ctx.count(f"geo:method:{flavour}:budget-exhausted")
+                break
+            idx = state["idx"]
+            draws = list(zip(idx[::2], idx[1::2]))
+            A1 = net.adjacency
+            rp.update(edge_index_draws=draws, A_after=A1.tolist())
+            if flavour == "f32":
+                reqs.append(f"geoFM {MODES[mode]} {n} {enc_mat(A0)} {enc_mat(Dint)} {epsint} {iters} {enc_mat(draws)}")
+            else:
+                ks = list(zip(state["k"][::2], state["k"][1::2]))
+                rp["rd_random_values_times_2_pow_53"] = ks
+                reqs.append(f"geoMD {MODES[mode]} {n} {enc_mat(A0)} {enc_mat(Dint)} {epsint} {iters} {enc_mat(ks)}")
+            impl.append(f"{enc_mat(A1)}|{enc_mat(e0)}|{E0}|{iters}")
+            geo_oracle(ctx, mode, A0, A1, None, Dint, epsint, "method-" + flavour, rp, iters == 1)
+            if not object_coherent(net, A1):
+                ctx.fail({"kind": "geo", "level": "method", "mode": mode, "invariant": "object-state"},
+                         "N / n_links / graph / degree() / sp_A disagree with the rewired adjacency", rp)
+            if not np.array_equal(np.asarray(call_D), Dm_before):
+                ctx.fail({"kind": "geo", "level": "method", "mode": mode, "invariant": "caller-array"},
+                         "the caller's distance matrix was modified", rp)
+            ctx.case(("geoM4", flavour, mode, A0.tobytes().hex(), str(rp["distance_matrix"]), float(call_eps), iters,
+                      tuple(draws)), not np.array_equal(A0, A1))
+            ctx.count(f"geo:method:{flavour}:completed")
     ctx.correspond("Lean geoMethod / distKernel == SpatialNetwork / GeoNetwork.randomly_rewire_geomodel_I/II/III, "
                    "set_random_links_by_distance (adjacency after; edge list, E and degree array derived by "
-                   "the model; histories on one object)", reqs, impl)
+                   "the model; histories on one object); geoMethodFl rnd32 on arbitrary double distance matrices / "
+                   "tolerances as converted to binary32 by the method; draws from 53-bit RNG values through "
+                   "geoDrawR rnd64", reqs, impl)
 
     # ------------------------------------------------------------------
     # 3. cross links
